@@ -37,7 +37,10 @@ MANIFEST = {
             "under which a direct call leaves the state machine; (11) a frame reaches a node's receive_frame / session manager / "
             "software manager / software receive only through an interface's hand-over under `if self.enabled` (cut theorem over the "
             "regenerated table of all hand-over calls), hence a non-ON node processes no traffic; (12) user-session time-outs are a "
-            "function of the sessions and the time alone (modelled; agrees with C16's model; logins refused while not ON). Tie: Gen/Power.lean (enum, defaults, "
+            "function of the sessions and the time alone (modelled; agrees with C16's model; logins refused while not ON); (13) the "
+            "composite timing theorem for ALL integer durations (a duration <= 0 skips the transitional state within the request); "
+            "(14) a session that survives a power cycle is inert while the node is not ON (every request but startup refused and "
+            "changing nothing, every login refused, every frame stopped at the interface; only the time-out sweep touches it). Tie: Gen/Power.lean (enum, defaults, "
             "statement shape of the power methods, guarded statement lists of apply_timestep and pre_timestep, interface guards and "
             "every enable/disable definition, validators, route tables per class, inventories of every class below Node and "
             "NetworkInterface, the power-relevant statements of constructors/loader/set-up, every power_on/power_off call site, "
@@ -59,7 +62,7 @@ MANIFEST = {
                  "power model; model tied by regenerated tables/shapes/inventories and a differential rig",
     "design_ref": "5/C12",
 }
-MODULES = ["PrimaiteModel.Props.C12", "PrimaiteModel.Props.C12Deep", "PrimaiteModel.Props.C12Cycle"]
+MODULES = ["PrimaiteModel.Props.C12", "PrimaiteModel.Props.C12Deep", "PrimaiteModel.Props.C12Cycle", "PrimaiteModel.Props.C12Any"]
 EXE = "drv_c12"
 TAIL = [{"op": "tick"}, {"op": "ping", "src": 1, "dst": 0}, {"op": "tick"}, {"op": "tick"}, {"op": "tick"}, {"op": "tick"},
         {"op": "ping", "src": 1, "dst": 0}, {"op": "ping", "src": 0, "dst": 1}]
@@ -209,6 +212,9 @@ def run(ctx: Ctx):
             continue  # quick: the deeper family on one host class besides computer (host-node); all host classes share HostNode's code
         for k, c in enumerate(rig.exhaustive_cls(cls, cls_depth + 1, 0, 0)):
             cases.append((f"clsexh{cls_depth + 1}:{cls}:0,0:{k}", c))
+    # --- dynamic cross-check of the (lexical) frame entry-point table: every class, every interface, every power state
+    for k, c in enumerate(rig.entry_cases()):
+        cases.append((f"entry:{c['nodes'][0]['cls']}:{k}", c))
     # --- random: two hosts, the six-class network, every class (requests only / with direct API calls and duration changes),
     #     whole power cycles from assorted software states, scenario files through the loader
     for k in range(ctx.scale(400, 4000)):
@@ -329,6 +335,17 @@ def run(ctx: Ctx):
                 fs, lines2, impl2, model2 = fails0, lines, impl, model
                 hit = next(f for f in fs if json.dumps(f["sig"], sort_keys=True) == key)
             ctx.violation(hit["sig"], hit["what"], {"case": small, "lines": lines2, "impl": impl2, "model": model2, "from": name})
+    # the dynamic counterpart of C12_gen_frame_entry_points: each interface class a node carries handed frames to its node when
+    # enabled on an ON node (the probe is not blind) and never when disabled / on a node that is not ON
+    ent = {k[len("frame:entry:"):]: v for k, v in ctx.hist.items() if k.startswith("frame:entry:")}
+    bad_ent = {k: v for k, v in ent.items() if k.endswith("reached-node") and not k.split(":")[1:3] == ["ON", "enabled"]}
+    blind = [c for c in rig.NIC_KIND if not ent.get(f"{c}:ON:enabled:reached-node")]
+    unprobed = [f"{c}:{st}" for c in rig.NIC_KIND for st in ("OFF", "BOOTING", "SHUTTING_DOWN")
+                if not ent.get(f"{c}:{st}:disabled:stopped-at-interface")]
+    ctx.oblige("rig:every interface class hands frames to its node only when enabled on an ON node (dynamic entry cross-check)",
+               "correspondence", not bad_ent and not blind and not unprobed,
+               json.dumps({"reached-while-disabled-or-not-on": bad_ent, "never-reached-when-on": blind, "not-probed": unprobed}))
+    ctx.notes.append("frame entry cross-check (frames handed straight to an interface): " + ", ".join(f"{k}={v}" for k, v in sorted(ent.items())))
     ctx.oblige("rig:R-node agrees on every trace", "correspondence", agree == len(cases),
                f"{len(cases) - agree} of {len(cases)} traces disagree or fail an oracle; not reproduced alone: {json.dumps(unstable)[:1500]}")
     ctx.notes.append(f"cases={len(cases)} lines={len(lines_all)} workers={workers} exhaustive depth {depth_all} over 16 duration pairs"
